@@ -229,8 +229,18 @@ func c03Decode(c *Ctx) {
 		r.Check(bd["$e"].String() == valT.String(), "C03.checksum-gate.same-bytes", c.ipos(e.Instr), "the bytes whose checksum is recomputed are exactly the bytes returned")
 		// decoded checksum = decoder & (2^n - 1), n = ENT/32; entropy = decoder >> n
 		nT := bd["$n"]
-		_, okX := ana.MatchX(c.P, "obj(alloc<math/big.Int>, call<(*math/big.Int).And>(self, $dec, obj(alloc<math/big.Int>, call<(*math/big.Int).Lsh>(self, $one, conv<uint>($n)), call<(*math/big.Int).Sub>(self, self, $one))))", bd["$x"])
-		xb, _ := ana.MatchX(c.P, "obj(alloc<math/big.Int>, call<(*math/big.Int).And>(self, $dec, obj(alloc<math/big.Int>, call<(*math/big.Int).Lsh>(self, $one, conv<uint>($n)), call<(*math/big.Int).Sub>(self, self, $one))))", bd["$x"])
+		var xb map[string]*ana.Term
+		okX := false
+		for _, p := range []string{
+			"obj(alloc<math/big.Int>, call<(*math/big.Int).And>(self, $dec, obj(alloc<math/big.Int>, call<(*math/big.Int).Lsh>(self, $one, conv<uint>($n)), call<(*math/big.Int).Sub>(self, self, $one))))",
+			// the mask itself receives the result: mask.And(decoder, mask)
+			"obj(alloc<math/big.Int>, call<(*math/big.Int).Lsh>(self, $one, conv<uint>($n)), call<(*math/big.Int).Sub>(self, self, $one), call<(*math/big.Int).And>(self, $dec, self))",
+			"obj(alloc<math/big.Int>, call<(*math/big.Int).Lsh>(self, $one, conv<uint>($n)), call<(*math/big.Int).Sub>(self, self, $one), call<(*math/big.Int).And>(self, self, $dec))",
+		} {
+			if xb, okX = ana.MatchX(c.P, p, bd["$x"]); okX {
+				break
+			}
+		}
 		r.Check(okX && xb["$n"].String() == nT.String(), "C03.checksum-gate.mask", c.ipos(e.Instr), "decoded checksum = decoder AND (1<<n - 1) with the same n as the recomputation")
 		if okX {
 			// the variable holding 1 is folded into its value (ana.ConstGlobal: single writer, the initialiser)
